@@ -1,9 +1,11 @@
 """C13 - an expression means the same in every position, alias, spelling and cache size"""
 from ..scen_expr import separators, option_tails
 from ..scen_ctx import contexts
+from ..scen_misc import regex_cache
 
 
 def run(ctx):
     separators(ctx)
     option_tails(ctx)
     contexts(ctx)        # 'the current input with its parents': every option position sees the same context derivations
+    regex_cache(ctx)
